@@ -32,6 +32,10 @@ int main(int argc, char** argv) {
     var v = get(e, $I(1)); var w = get(e, v);      /* following links: the key is a value object embedded in the same table */
     if (c_int(w) != 3) { printf("REPRODUCED: get(t, get(t, 1)) on {1:2, 2:3, 3:1} gives %lld instead of 3 (a value object of the table taken for the key of its slot)\n", (long long)c_int(w)); return 1; }
     foreach (k in e) { if (c_int(get(e, k)) != (c_int(k) % 3) + 1) { printf("REPRODUCED: get with a key object handed out by iteration\n"); return 1; } } }
+  { var e = new(Table, Int, Int); for (int i = 0; i < 5; i++) set(e, $I(i), $I(i)); int raised = 0;
+    try { resize(e, 4); } catch (x in FormatError) { raised = 1; }
+    if (!raised) { printf("REPRODUCED: resize(t, 4) of a Table holding 5 items did not raise FormatError\n"); return 1; }
+    if (len(e) != 5 || !mem(e, $I(4))) { printf("REPRODUCED: a refused resize changed the Table\n"); return 1; } }
   int nops = 2 * NK + 1, depth = 5;
   long total = 1; for (int d = 0; d < depth; d++) total *= nops;
   for (long code = 0; code < total; code++) {
